@@ -81,3 +81,54 @@ fn d9_aligned_bytes_for_aligned_zst() {
   drop(z);
   assert_eq!(a.allocated(), before);
 }
+
+// D2 (C14): put followed by get of the same type and byte order returns the value
+#[test]
+fn d2_get_le_ne_roundtrip() {
+  let a = opts().alloc::<unsync::Arena>().unwrap();
+  let mut b = a.alloc_bytes(64).unwrap();
+  b.put_u16_le(1).unwrap();
+  assert_eq!(b.get_u16_le().unwrap(), 1);
+  b.put_u32_ne(0x0102_0304).unwrap();
+  assert_eq!(b.get_u32_ne().unwrap(), 0x0102_0304);
+  b.put_i64_le(-2).unwrap();
+  assert_eq!(b.get_i64_le().unwrap(), -2);
+  b.put_u128_be(7).unwrap();
+  assert_eq!(b.get_u128_be().unwrap(), 7);
+  assert_eq!(b.len(), 0);
+}
+
+// D3 (C14): align_to yields a pointer aligned for T inside the buffer; put_aligned stays inside the buffer or errs
+#[test]
+fn d3_align_to_uses_accessible_range() {
+  let a = opts().alloc::<unsync::Arena>().unwrap();
+  let mut x = a.alloc_bytes(2).unwrap(); unsafe { x.detach() }; drop(x);   // cursor now odd-ish
+  let mut b = a.alloc_aligned_bytes::<u64>(16).unwrap();
+  assert_eq!(b.offset() % 8, 0);
+  let p = b.align_to::<u64>().unwrap();
+  let off = unsafe { a.offset(p.as_ptr() as *const u8) };
+  assert_eq!(off % 8, 0, "align_to returned arena offset {off}");
+  assert!(off >= b.offset() && off <= b.offset() + b.capacity());
+}
+#[test]
+fn d3_put_aligned_checks_size() {
+  let a = opts().alloc::<unsync::Arena>().unwrap();
+  let mut x = a.alloc_bytes(7).unwrap(); unsafe { x.detach() }; drop(x);   // next offset is 8-aligned (data_offset 1 + 7)
+  let mut small = a.alloc_bytes(4).unwrap();
+  let mut neighbour = a.alloc_bytes(8).unwrap();
+  neighbour.put_u64_le(u64::MAX).unwrap();
+  let r = unsafe { small.put_aligned(0u64).map(|_| ()) };
+  assert!(r.is_err(), "a u64 cannot fit a 4-byte buffer");
+  assert_eq!(small.len(), 0, "len unchanged on error");
+  assert_eq!(&neighbour[..], &[0xffu8; 8][..], "neighbouring buffer untouched");
+}
+
+// D4 (C15): readers return OutOfBounds for every offset whose value does not lie below allocated()
+#[test]
+fn d4_reader_offset_overflow() {
+  let a = opts().alloc::<unsync::Arena>().unwrap();
+  let r = std::panic::catch_unwind(std::panic::AssertUnwindSafe(|| a.get_u16_le(usize::MAX)));
+  assert!(matches!(r, Ok(Err(_))), "get_u16_le(usize::MAX) must be OutOfBounds");
+  let r = std::panic::catch_unwind(std::panic::AssertUnwindSafe(|| a.get_u64_be(usize::MAX - 3)));
+  assert!(matches!(r, Ok(Err(_))));
+}
